@@ -264,6 +264,34 @@ def _names(t, out):
                 _names(c, out)
 
 
+def _tree_ranges(t, out):
+    """(start, stop, stride) of every RangeLiteral of the parse tree"""
+    from lsst.daf.butler.registry.queries.expressions.parser import exprTree as E
+
+    if isinstance(t, E.RangeLiteral):
+        out.append([int(t.start), int(t.stop), None if t.stride is None else int(t.stride)])
+    for attr in ("lhs", "rhs", "operand", "expr", "ra", "dec"):
+        c = getattr(t, attr, None)
+        if isinstance(c, E.Node):
+            _tree_ranges(c, out)
+    for attr in ("values", "items", "args"):
+        for c in getattr(t, attr, None) or ():
+            if isinstance(c, E.Node):
+                _tree_ranges(c, out)
+
+
+def _pred_ranges(pred):
+    """(start, stop, step) of every in_range leaf of a Predicate (stop exclusive, as Predicate.in_range documents it)"""
+    out = []
+    for group in pred.operands:
+        for leaf in group:
+            if getattr(leaf, "predicate_type", None) == "not":
+                leaf = leaf.operand
+            if getattr(leaf, "predicate_type", None) == "in_range":
+                out.append([int(leaf.start), None if leaf.stop is None else int(leaf.stop), int(leaf.step)])
+    return out
+
+
 def conv_batch(payload):
     """payload: {"strings": [...], "bind": {...}, "dimensions": [...]} -> per string: time table, resolution of every
     name in the tree (observed from the real visitIdentifier) and what convert_expression_string_to_predicate did."""
@@ -308,8 +336,13 @@ def conv_batch(payload):
                 res[n] = _resolve(visitor, n, cols)
         rec["res"] = res
         try:
-            convert_expression_string_to_predicate(s, context=context, universe=universe)
+            pred = convert_expression_string_to_predicate(s, context=context, universe=universe)
             rec["obs"] = "accept"
+            if tree is not None:
+                tr_ranges = []
+                _tree_ranges(tree, tr_ranges)
+                if tr_ranges:
+                    rec["ranges"] = {"tree": tr_ranges, "pred": _pred_ranges(pred)}
         except InvalidQueryError:
             rec["obs"] = "invalid"
         except Exception as e:  # noqa: BLE001
